@@ -207,6 +207,26 @@ def new_dict(sub):
     return {}
 
 
+NOARG = object()         # ImmutableDict() with no argument: the default-argument object of __init__
+
+
+def no_oneshot(spec):
+    if isinstance(spec, list):
+        if spec and spec[0] in ("g", "z"):
+            return ["t"] + [no_oneshot(x) for x in spec[1:]]
+        return [no_oneshot(x) for x in spec]
+    return spec
+
+
+def has_oneshot(spec):
+    """does the value contain a one-shot iterator (generator / zip)?  Such an argument cannot be used twice"""
+    if isinstance(spec, list):
+        if spec and spec[0] in ("g", "z"):
+            return True
+        return any(has_oneshot(x) for x in spec)
+    return False
+
+
 def build(spec, kept, frozen=None, plain=False):
     """spec -> Python value; every dict/list created is appended to kept (creation order, pre-order);
     every ImmutableDict created for an ["I", ...] node is appended to frozen (same order).
@@ -236,12 +256,24 @@ def build(spec, kept, frozen=None, plain=False):
         for x in spec[1]:
             lst.append(build(x, kept, frozen, plain))
         return lst
-    if t == "d":
+    if t in ("d", "v"):
         d = new_dict(spec[2] if len(spec) > 2 and not plain else None)
         kept.append(d)
         for k, v in spec[1]:
             d[build(k, kept, frozen, plain)] = build(v, kept, frozen, plain)
-        return d
+        return d if t == "d" else d.items()          # "v": the caller passes the items VIEW of a dict it keeps
+    if t == "g":                                        # a one-shot generator of pairs
+        pairs = [build(x, kept, frozen, plain) for x in spec[1]]
+        return (x for x in pairs)
+    if t == "z":                                        # a zip object of pairs
+        pairs = [build(x, kept, frozen, plain) for x in spec[1]]
+        return zip([a for a, _ in pairs], [b for _, b in pairs])
+    if t == "ba":                                       # a bytearray where bytes are expected (kept: it is mutable)
+        ba = bytearray(bytes.fromhex(spec[1]))
+        kept.append(ba)
+        return ba
+    if t == "noarg":
+        return NOARG
     if t == "I":
         _, ImmutableDict = _classes()
         slot = None
@@ -297,27 +329,34 @@ class Enc:
         t = spec[0]
         if t in ("b", "s", "i", "f", "B", "e", "dt"):
             return "A" + spec_atom_hex(spec)
-        if t == "t":
+        if t in ("t", "g", "z"):        # generators / zips of pairs: iterated once, like a tuple
             return "T(" + ";".join(self.val(x) for x in spec[1]) + ")"
+        if t == "noarg":
+            return "T()"
+        if t == "ba":                   # a mutable byte container: for the model, a list of ints
+            h = len(self.cells)
+            self.cells.append("L(" + ";".join("A03" + str(b).encode().hex() for b in bytes.fromhex(spec[1])) + ")")
+            self.kept_handles.append(h)
+            return "R%d" % h
         if t == "l":
             h = len(self.cells)
             self.cells.append(None)
             self.kept_handles.append(h)
             self.cells[h] = "L(" + ";".join(self.val(x) for x in spec[1]) + ")"
             return "R%d" % h
-        if t in ("d", "I"):
+        if t in ("d", "I", "v"):
             h = len(self.cells)
             self.cells.append(None)
-            if t == "d":
+            if t in ("d", "v"):
                 self.kept_handles.append(h)
             else:
                 self.frozen_vals.append("I%d" % h)
             items = []
             for k, v in spec[1]:
                 items.append(spec_atom_hex(k) + "=" + self.val(v))
-            fac = t == "d" and len(spec) > 2 and spec[2] in FACTORY_SUBCLASSES
+            fac = t in ("d", "v") and len(spec) > 2 and spec[2] in FACTORY_SUBCLASSES
             self.cells[h] = ("F(" if fac else "D(") + ";".join(items) + ")"
-            return ("R%d" if t == "d" else "I%d") % h
+            return ("I%d" if t == "I" else "R%d") % h
         if t == "o":
             import attr
             classes, _ = _classes()
@@ -505,7 +544,8 @@ def g_revision(rng, hashable=False):
     author, committer = opt(rng, g_person, 0.1), opt(rng, g_person, 0.1)
     xh = [["t", [rb(rng, 3), rbytes(rng)]] for _ in range(rng.choice([0, 0, 1, 2, 3]))]
     r = rng.random()
-    xh = ["l", xh] if r < 0.6 else (["t", xh] if r < 0.8 else ["l", [["l", p[1]] for p in xh]])
+    xh = (["l", xh] if r < 0.5 else ["t", xh] if r < 0.65 else ["g", xh] if r < 0.75 else ["z", xh] if r < 0.85
+          else ["l", [["l", p[1]] for p in xh]])
     meta = rmeta(rng, hashable)
     if meta is not None and rng.random() < 0.3 and not any(k == ["s", "extra_headers"] for k, _ in meta[1]):
         # legacy: extra_headers inside metadata (Revision.__attrs_post_init__ calls copy_pop on it),
@@ -515,9 +555,16 @@ def g_revision(rng, hashable=False):
         items = meta[1] + [legacy]
         if not hashable and rng.random() < 0.7:
             items.append([["s", "nested"], ["d", [[["s", "l"], ["l", [["i", 1], ["d", [[["s", "deep"], ["l", []]]]]]]]]]])
+        r2 = rng.random()
+        if r2 < 0.15:       # an EMPTY legacy list: popped all the same
+            items[len(meta[1])] = [["s", "extra_headers"], ["l" if meta[0] == "d" else "t", []]]
         rng.shuffle(items)
         meta = [meta[0], items]
-        xh = ["t", []]
+        if r2 < 0.8 or not xh[1]:
+            xh = ["t", []]
+        elif hashable:      # the key stays in the metadata: keep the object free of nested mutable containers
+            meta = [meta[0], [[k, (["t", [["t", p[1]] for p in v[1]]] if k == ["s", "extra_headers"] else v)] for k, v in meta[1]]]
+        # else: the key "extra_headers" in metadata AND explicit extra_headers: nothing is moved (two options interacting)
     return ["o", "Revision", [["message", opt(rng, rbytes)], ["author", author], ["committer", committer],
                               ["date", None if author is None else opt(rng, g_tstz)],
                               ["committer_date", None if committer is None else opt(rng, g_tstz)],
@@ -618,10 +665,15 @@ def fresh_value(rng, k):
 def container_steps(rng, spec, index, k0):
     """1..6 mutations of the kept container number `index` whose spec is `spec`"""
     steps = []
-    if spec[0] == "d":
+    if spec[0] == "ba":
+        steps = [["app", index, ["i", 65 + k0 % 20]], ["pop", index], ["clear", index]]
+        rng.shuffle(steps)
+        return steps
+    if spec[0] in ("d", "v"):
         keys = [k for k, _ in spec[1]]
         sample_key = keys[0] if keys else ["s", "a"]
-        newkey = ["b", b"new-key".hex()] if sample_key[0] == "b" else ["s", "new-key"]
+        newkey = (["b", b"new-key".hex()] if sample_key[0] == "b" else ["i", 424242] if sample_key[0] == "i"
+                  else ["s", "new-key"])
         steps.append(["set", index, newkey, fresh_value(rng, k0)])
         if keys:
             steps.append(["set", index, rng.choice(keys), fresh_value(rng, k0 + 1)])
@@ -644,13 +696,15 @@ def kept_specs(spec, out, top=True, path=()):
     if spec is None:
         return
     t = spec[0]
-    if t in ("l", "t"):
+    if t in ("l", "t", "g", "z"):
         if t == "l":
             out.append((spec, path))
         for x in spec[1]:
             kept_specs(x, out, False, path + (t,))
-    elif t in ("d", "I"):
-        if t == "d":
+    elif t == "ba":
+        out.append((spec, path))
+    elif t in ("d", "I", "v"):
+        if t in ("d", "v"):
             out.append((spec, path))
         for k, v in spec[1]:
             kept_specs(v, out, False, path + (t,))
@@ -668,6 +722,8 @@ def read_steps(fld, items, cname, k0=0):
     as_bytes = fld == "branches" or (keys and keys[0][0] == "b")
 
     def miss(i):
+        if keys and keys[0][0] == "i":
+            return ["i", 10 ** 6 + k0 + i]
         return ["b", ("missing-%d" % (k0 + i)).encode().hex()] if as_bytes else ["s", "missing-%d" % (k0 + i)]
     steps = [["read", fld, "contains", miss(0)], ["read", fld, "get", miss(1)], ["read", fld, "getitem", miss(2)],
              ["read", fld, "iter", None], ["read", fld, "len", None], ["read", fld, "items", None]]
@@ -741,7 +797,8 @@ def accessor_case(rng, cname, route):
                 return None
             # to_dict() turns tuples into lists for from_dict: keep the metadata values flat (see docstring)
             d0 = c["args"][0]
-            d0[1][:] = [[k, ([v[0], [[kk, (["s", "flat"] if vv is not None and vv[0] in ("l", "d") and kk != ["s", "extra_headers"] else vv)] for kk, vv in v[1]]] + v[2:]
+            popped = legacy_revision(cname, [[k[1], v] for k, v in d0[1]])      # only then is the key moved out
+            d0[1][:] = [[k, ([v[0], [[kk, (["s", "flat"] if vv is not None and vv[0] in ("l", "d") and not (popped and kk == ["s", "extra_headers"]) else vv)] for kk, vv in v[1]]] + v[2:]
                              if k[1] == "metadata" and v is not None and v[0] == "d" else v)] for k, v in d0[1]]
             c = dict(c, steps=[], nested_shared=[])
         else:
@@ -771,6 +828,8 @@ def script_case(rng, cname, objspec, route):
     steps.append(["setattr", "no_such_attribute"])
     steps.append(["setitem", ["s", "a"]])
     steps.append(["delitem", ["s", "a"]])
+    steps.append(["reach"])          # the same attempts on every value object reached THROUGH the object's containers
+    steps.append(["evolve"])
     reads = []
     for f, v in fields:
         if f in MAPPING_FIELDS and v is not None and v[0] in ("d", "I"):
@@ -904,12 +963,24 @@ def fromdict_case(rng, cname, objspec, nested_ok=True):
 
 def idict_case(rng):
     items = rmeta_items(rng, hashable=rng.random() < 0.7)
+    if rng.random() < 0.15:         # int keys (1 / True / 1.0 are one key)
+        items = [[["i", 3 * i + rng.randrange(3)], v] for i, (_, v) in enumerate(items)]
     r = rng.random()
-    if r < 0.5:
+    if r < 0.4:
         arg = subify(rng, ["d", items], 0.6)
-    elif r < 0.65:
+    elif r < 0.5:
         arg = ["l", [["t", [k, v]] for k, v in items]]
-    elif r < 0.9:
+    elif r < 0.55:
+        arg = ["l", [["l", [k, v]] for k, v in items]]      # pairs given as 2-element lists
+    elif r < 0.62:
+        arg = ["g", [["t", [k, v]] for k, v in items]]      # a one-shot generator
+    elif r < 0.68:
+        arg = ["z", [["t", [k, v]] for k, v in items]]      # zip(keys, values)
+    elif r < 0.76:
+        arg = subify(rng, ["v", items], 0.3)                # d.items() of a dict the caller keeps
+    elif r < 0.8:
+        arg, items = ["noarg"], []                          # ImmutableDict(): the default-argument object
+    elif r < 0.93:
         arg = ["I", items]          # ImmutableDict(idict): shares the cell of an already frozen mapping
     else:
         arg = ["t", [["t", [k, v]] for k, v in items]]
@@ -923,13 +994,18 @@ def idict_case(rng):
     steps.append(["copy_pop", ["s", "no-such-key"]])
     if items:
         steps.append(["copy_pop", items[-1][0]])
-    if arg[0] in ("d", "l"):
-        steps += container_steps(rng, arg if arg[0] == "d" else arg, 0, 0)
+    steps.append(["reach"])
+    if arg[0] in ("d", "l", "v"):
+        steps += container_steps(rng, arg, 0, 0)
         if items:
             steps.append(["copy_pop", items[0][0]])
     kept = []
     kept_specs(arg, kept)
-    shared = [i for i, (sp, path) in enumerate(kept) if path != ()]      # nested in the argument: shallow copy, shared
+    # nested in the argument: shallow copy, shared - except the 2-element lists that only carry a (key, value) pair
+    shared = [i for i, (sp, path) in enumerate(kept) if path != () and not (arg[0] == "l" and path == ("l",) and sp[0] == "l")]
+    for i, (sp, path) in enumerate(kept):
+        if arg[0] == "l" and path == ("l",) and sp[0] == "l":
+            steps += container_steps(rng, sp, i, 30 + 7 * i)[:1]
     for i in shared:
         steps += container_steps(rng, kept[i][0], i, 50 + 7 * i)[:1]
     return {"kind": "script", "cls": "ImmutableDict", "route": "ctor", "args": [["data", arg]], "steps": steps,
@@ -966,6 +1042,11 @@ def permute_dicts(rng, spec):
     if t in ("t", "l"):
         return [t, [permute_dicts(rng, x) for x in spec[1]]]
     return spec
+
+
+def json_key(k):
+    import json
+    return json.dumps(k)
 
 
 def rich_value(rng, depth=0):
@@ -1024,6 +1105,14 @@ def spelled_cases(rng, cname):
         items = rich_items(rng)
         a1 = [["data", [rng.choice(["d", "I"]), items]]]
         a2 = [["data", respell(rng, [rng.choice(["d", "I"]), items])]]
+        if rng.random() < 0.3:      # numeric keys: 1 / True / 1.0 and 0 / False / 0.0 / -0.0 are one key each
+            ks = rng.sample([0, 1, 2, 3, 7], min(len(items), 4))
+            it1 = [[["i", k], v] for k, (_, v) in zip(ks, items)]
+            it2 = [[respell(rng, ["i", k]), w] for k, (_, w) in zip(ks, a2[0][1][1])]
+            # the values of a2 were shuffled with their keys: take them in the order of a1 again
+            vals2 = dict((json_key(k), w) for k, w in a2[0][1][1])
+            it2 = [[respell(rng, ["i", k]), vals2[json_key(k0)]] for k, (k0, _) in zip(ks, items)]
+            a1, a2 = [["data", [a1[0][1][0], it1]]], [["data", [a2[0][1][0], it2]]]
         out.append({"kind": "twins", "cls": cname, "variation": "equal-but-differently-spelled", "args1": a1, "args2": a2})
         return out
     a = gen_obj(rng, cname, hashable=True)
@@ -1042,13 +1131,83 @@ def spelled_cases(rng, cname):
     return out
 
 
+UNCHECKED_FIELDS = {("Directory", "raw_manifest"), ("Release", "raw_manifest"), ("Revision", "raw_manifest"),
+                    ("Content", "get_data")}       # no validator, no converter: whatever is given is kept (recorded)
+
+
+def illtyped_cases(rng, cname):
+    """a MUTABLE container where the field's type is an immutable one: a list for a tuple-typed field, a bytearray for a
+    bytes-typed one.  /repo refuses them (nothing is built); should a validator be loosened, the caller mutates the
+    container afterwards and the object must not move."""
+    out = []
+    spec = gen_obj(rng, cname, hashable=True)
+    cands = [(i, f, v) for i, (f, v) in enumerate(spec[2])
+             if v is not None and v[0] in ("t", "b") and (cname, f) not in UNCHECKED_FIELDS and f != "extra_headers"
+             # QualifiedSWHID.path has a converter that turns any bytes-like that is not `bytes` into fresh bytes
+             # (urllib.parse.unquote_to_bytes): a bytearray is accepted and COPIED there
+             and (cname, f) != ("QualifiedSWHID", "path")]
+    rng.shuffle(cands)
+    for i, f, v in cands[:2]:
+        bad = ["l", v[1]] if v[0] == "t" else ["ba", v[1]]
+        fields = [[g, (bad if j == i else x)] for j, (g, x) in enumerate(spec[2])]
+        fields = [[g, (["b", "11" * 20] if g == "id" and x == ["b", ""] else x)] for g, x in fields]   # no compute_hash on it
+        steps = container_steps(rng, bad, 0, 3) + [["reach"]]
+        kept = []
+        for g, x in fields:
+            kept_specs(x, kept)
+        idx = [k for k, (sp, _) in enumerate(kept) if sp is bad][0]
+        steps = [[st[0], idx] + st[2:] if st[0] in CALLER_OPS else st for st in steps]
+        out.append({"kind": "script", "cls": cname, "route": "ctor", "args": fields, "steps": steps, "nested_shared": [],
+                    "illtyped": f})
+    return out
+
+
+def swhid_spelling_cases(rng):
+    """the SWHID converters accept several spellings of one value: enum member / its string value, CoreSWHID / its
+    string, bytes path / percent-encoded str, (a, b) / "a-b".  Equal arguments, differently spelled -> equal objects"""
+    out = []
+    abbrev = {"CONTENT": "cnt", "DIRECTORY": "dir", "REVISION": "rev", "RELEASE": "rel", "SNAPSHOT": "snp",
+              "ORIGIN": "ori", "RAW_EXTRINSIC_METADATA": "emd"}
+    oid = rb(rng, 20)
+    t = rng.choice(["CONTENT", "DIRECTORY", "REVISION", "RELEASE", "SNAPSHOT"])
+    base = [["namespace", ["s", "swh"]], ["scheme_version", ["i", 1]], ["object_id", oid]]
+    for cls, en in (("CoreSWHID", "ObjectType"), ("ExtendedSWHID", "ExtendedObjectType")):
+        a1 = base + [["object_type", ["e", en, t]]]
+        a2 = base + [["object_type", ["s", abbrev[t]]]]
+        out.append({"kind": "twins", "cls": cls, "variation": "swhid-spelling", "args1": a1, "args2": a2})
+    snp, anchor = rb(rng, 20), rb(rng, 20)
+    at = rng.choice(["DIRECTORY", "REVISION", "RELEASE", "SNAPSHOT"])
+    lo, hi = rng.randrange(1, 50), rng.randrange(50, 99)
+    two = rng.random() < 0.5
+    q1 = base + [["object_type", ["e", "ObjectType", t]], ["origin", ["s", "https://example.org/a"]],
+                 ["visit", g_core_fixed(snp, "SNAPSHOT")], ["anchor", g_core_fixed(anchor, at)],
+                 ["path", ["b", b"/a b/c;d".hex()]], ["lines", ["t", [["i", lo], ["i", hi] if two else None]]]]
+    q2 = base + [["object_type", ["s", abbrev[t]]], ["origin", ["s", "https://example.org/a"]],
+                 ["visit", ["s", "swh:1:snp:" + snp[1]]], ["anchor", ["s", "swh:1:%s:%s" % (abbrev[at], anchor[1])]],
+                 ["path", ["s", "/a%20b/c%3Bd"]], ["lines", ["s", "%d-%d" % (lo, hi) if two else "%d" % lo]]]
+    out.append({"kind": "twins", "cls": "QualifiedSWHID", "variation": "swhid-spelling", "args1": q1, "args2": q2})
+    # the same fields in another SWHID class: whatever == says, equal objects must hash alike
+    core = base + [["object_type", ["e", "ObjectType", t]]]
+    ext = base + [["object_type", ["e", "ExtendedObjectType", t]]]
+    qual = core + [["origin", None], ["visit", None], ["anchor", None], ["path", None], ["lines", None]]
+    for (c1, x1), (c2, x2) in ((("CoreSWHID", core), ("ExtendedSWHID", ext)), (("CoreSWHID", core), ("QualifiedSWHID", qual)),
+                               (("QualifiedSWHID", qual), ("ExtendedSWHID", ext))):
+        out.append({"kind": "twins", "cls": c1, "cls2": c2, "variation": "cross-class", "args1": x1, "args2": x2})
+    return out
+
+
+def g_core_fixed(oid, t):
+    return ["o", "CoreSWHID", [["namespace", ["s", "swh"]], ["scheme_version", ["i", 1]], ["object_id", oid],
+                               ["object_type", ["e", "ObjectType", t]]]]
+
+
 def twins_cases(rng, cname):
     out = []
     a = gen_obj(rng, cname, hashable=rng.random() < 0.8)
     flags = eq_flags(cname)
     out.append({"kind": "twins", "cls": cname, "variation": "same", "args1": a[2], "args2": a[2]})
     # the SAME argument objects (in particular the same already-frozen mappings) used twice
-    a2 = gen_obj(rng, cname, hashable=rng.random() < 0.8)
+    a2 = no_oneshot(gen_obj(rng, cname, hashable=rng.random() < 0.8))    # a one-shot iterator cannot be given twice
     out.append({"kind": "twins", "cls": cname, "variation": "same-objects", "args1": a2[2], "args2": a2[2]})
     b = gen_obj(rng, cname, hashable=True)
     # differs in the eq=False fields only
@@ -1108,8 +1267,19 @@ def gen(rng, tier):
             ac = accessor_case(rng, cname, "fromdict" if k % 3 == 2 else "ctor")
             if ac:
                 cases.append(ac)
+        for _ in range(1 if tier == "quick" else 25):
+            cases += illtyped_cases(rng, cname)
     for _ in range(n_acc * 2):
         cases.append(accessor_case(rng, "ImmutableDict", "ctor"))
+    for _ in range(4 if tier == "quick" else 100):
+        cases += swhid_spelling_cases(rng)
+    if tier != "quick":         # large mappings: order independence of == and hash
+        for n in (200, 1000, 3000):
+            items = [[["s", "key-%05d-%s" % (i, "x" * (i % 7))], ["i", i]] for i in range(n)]
+            perm = items[:]
+            rng.shuffle(perm)
+            cases.append({"kind": "twins", "cls": "ImmutableDict", "variation": "permuted",
+                          "args1": [["data", ["d", items]]], "args2": [["data", ["d", perm]]]})
     for _ in range(n_obj * 3):
         cases.append(idict_case(rng))
         cases += spelled_cases(rng, "ImmutableDict")
@@ -1145,7 +1315,7 @@ def gen(rng, tier):
 
 # ------------------------------------------------------------------ classification
 def _mutated_containers(c):
-    return sum(1 for s in c.get("steps", []) if s[0] in ("set", "del", "clear", "app", "idx", "pop", "copy_pop", "read", "ret"))
+    return sum(1 for s in c.get("steps", []) if s[0] in ("set", "del", "clear", "app", "idx", "pop", "copy_pop", "read", "ret", "reach", "evolve"))
 
 
 def nontrivial(c):
@@ -1160,6 +1330,14 @@ def nontrivial(c):
     if c["kind"] == "transport":
         return len(c["objects"]) >= 1
     return False
+
+
+def _shapes(x):
+    if isinstance(x, list):
+        if x and isinstance(x[0], str) and len(x[0]) <= 5:
+            yield x[0]
+        for y in x:
+            yield from _shapes(y)
 
 
 def _subclasses(x):
@@ -1188,6 +1366,13 @@ def classify(c):
     elif c["kind"] == "twins":
         ks.append("class=" + c["cls"])
         ks.append("variation=" + c["variation"])
+    if c["kind"] == "script":
+        if c.get("illtyped"):
+            ks.append("ill-typed mutable container argument (list for tuple / bytearray for bytes)")
+        shapes = sorted(set(t for t in _shapes(c["args"]) if t in ("g", "z", "v", "noarg", "ba")))
+        for t in shapes:
+            ks.append("argument-shape=" + {"g": "generator", "z": "zip", "v": "dict.items() view", "noarg": "no argument",
+                                           "ba": "bytearray"}[t])
     elif c["kind"] == "transport":
         for cname in sorted(set(o["cls"] for o in c["objects"])):
             ks.append("transported-class=" + cname)
@@ -1215,7 +1400,7 @@ def _build_args(cname, route, fields, kept, frozen=None, plain=False):
 def _make(cname, route, built):
     classes, ImmutableDict = _classes()
     if cname == "ImmutableDict":
-        return ImmutableDict(built[1])
+        return ImmutableDict() if built[1] is NOARG else ImmutableDict(built[1])
     if route == "fromdict":
         return classes[cname].from_dict(built[1])
     return classes[cname](**built[1])
@@ -1238,6 +1423,10 @@ def fsnap(x, copy):
 
 def snapshot(obj, twin, same=None, frozen=(), copies=()):
     snap = {"content": render(obj)}
+    try:
+        snap["repr"] = repr(obj)
+    except Exception as e:
+        snap["repr"] = "raises " + type(e).__name__
     if hasattr(obj, "to_dict"):
         try:
             snap["to_dict"] = render(obj.to_dict())
@@ -1267,10 +1456,28 @@ def snapshot(obj, twin, same=None, frozen=(), copies=()):
 MUTABLE = (dict, list, set, bytearray)
 
 
+def _attrs_values(x):
+    import attr
+    if attr.has(type(x)) and not isinstance(x, type):
+        out = []
+        for a in attr.fields(type(x)):
+            try:
+                out.append(getattr(x, a.name))
+            except Exception:
+                pass
+        return out
+    return None
+
+
 def _mutable_ids(x, out, depth=0):
-    """ids of the mutable containers reachable in a returned value"""
+    """ids of the mutable containers reachable in a returned value (through tuples, mappings and value objects)"""
     _, ImmutableDict = _classes()
     if depth > 8:
+        return out
+    av = _attrs_values(x)
+    if av is not None:
+        for v in av:
+            _mutable_ids(v, out, depth + 1)
         return out
     if isinstance(x, MUTABLE):
         out[id(x)] = x
@@ -1318,6 +1525,144 @@ def deep_mutate(x, depth=0):
     elif isinstance(x, (tuple, frozenset)):
         for v in x:
             deep_mutate(v, depth + 1)
+    else:
+        av = _attrs_values(x)
+        if av is not None:
+            for v in av:
+                deep_mutate(v, depth + 1)
+
+
+MUTATOR_CALLS = [("update", ({"__c11__": 1},)), ("pop", ()), ("popitem", ()), ("clear", ()), ("setdefault", ("__c11__", 1)),
+                 ("append", (1,)), ("extend", ([1],)), ("insert", (0, 1)), ("remove", (None,)), ("sort", ()), ("reverse", ()),
+                 ("add", (1,)), ("discard", (1,)), ("__ior__", ({"__c11__": 1},)), ("__iadd__", ((1,),)), ("__imul__", (2,)),
+                 ("__setitem__", (0, None)), ("__delitem__", (0,))]
+
+
+def _value_nodes(x, path, out, depth=0):
+    """every value object / frozen mapping / tuple reachable from x through its public structure"""
+    _, ImmutableDict = _classes()
+    if depth > 8 or isinstance(x, MUTABLE):          # mutable containers nested in metadata: the recorded shared reading
+        return out
+    av = _attrs_values(x)
+    if av is not None:
+        import attr
+        out.append((path, x))
+        for a, v in zip(attr.fields(type(x)), av):
+            _value_nodes(v, path + "." + a.name, out, depth + 1)
+    elif isinstance(x, ImmutableDict):
+        out.append((path, x))
+        for k, v in list(x.items()):
+            _value_nodes(v, "%s[%r]" % (path, k), out, depth + 1)
+    elif isinstance(x, (tuple, frozenset)):
+        out.append((path, x))
+        for i, v in enumerate(x):
+            _value_nodes(v, "%s[%d]" % (path, i), out, depth + 1)
+    return out
+
+
+def reach_probe(obj):
+    """setattr / delattr / undeclared attribute / __dict__ / item assignment / mutator methods on the object and on every
+    value object, frozen mapping and tuple reached through its containers.  Returns the attempts that did NOT raise."""
+    import attr
+    _, ImmutableDict = _classes()
+    bad = []
+    nodes = _value_nodes(obj, "obj", [])
+    for path, x in nodes:
+        if attr.has(type(x)):
+            for a in attr.fields(type(x)):
+                if _raises(lambda: setattr(x, a.name, None)) is None:
+                    bad.append("%s: setattr(%s) did not raise" % (path, a.name))
+                if _raises(lambda: delattr(x, a.name)) is None:
+                    bad.append("%s: delattr(%s) did not raise" % (path, a.name))
+            if _raises(lambda: setattr(x, "c11_undeclared", 1)) is None:
+                bad.append("%s: assigning an undeclared attribute did not raise" % path)
+            if type(x).__module__ == "swh.model.model" and hasattr(x, "__dict__"):
+                # the model classes are slotted: no instance __dict__ through which fields could be rebound
+                # (the SWHID classes and ImmutableDict do have one on /repo: recorded, not probed)
+                d = x.__dict__
+                d["c11_via_dict"] = 1
+                bad.append("%s: has an instance __dict__ (writable: %s)" % (path, "c11_via_dict" in vars(x)))
+        if isinstance(x, ImmutableDict):
+            key = next(iter(x), "k")
+            if _raises(lambda: _item_set(x, key)) is None:
+                bad.append("%s: item assignment did not raise" % path)
+            if _raises(lambda: _item_del(x, key)) is None:
+                bad.append("%s: item deletion did not raise" % path)
+        for name, args in MUTATOR_CALLS:
+            m = getattr(x, name, None)
+            if m is not None and callable(m):
+                if _raises(lambda: m(*args)) is None:
+                    bad.append("%s: %s(...) exists and did not raise" % (path, name))
+    return {"nodes": len(nodes), "not_raising": bad[:20]}
+
+
+def evolve_probe(obj):
+    """attr.evolve / .evolve() results: equal, immutable, sharing nothing mutable; a container given to evolve is copied"""
+    import attr
+    _, ImmutableDict = _classes()
+    bad = []
+    if not attr.has(type(obj)):
+        return {"skipped": True}
+    try:
+        e = attr.evolve(obj)
+    except Exception as ex:
+        return {"evolve_raises": type(ex).__name__}
+    bad += coherence_facts(e, obj, "attr.evolve(obj)")
+    bad += immutability_facts(e, "attr.evolve(obj)")
+    # lists / dicts nested in a metadata mapping are handed out by to_dict() as they are (recorded shared reading):
+    # what the copies hand out is mutated only when the object holds none
+    flat = not _mutable_ids(obj, {})
+    if hasattr(obj, "evolve"):
+        try:
+            e2 = obj.evolve()
+            bad += immutability_facts(e2, "obj.evolve()")
+            if flat and hasattr(e2, "to_dict"):
+                deep_mutate(e2.to_dict())
+        except Exception:
+            pass
+    if flat and hasattr(e, "to_dict"):
+        deep_mutate(e.to_dict())
+    for f in MAPPING_FIELDS:
+        m = getattr(obj, f, None)
+        if isinstance(m, ImmutableDict):
+            d = dict(m.items())
+            try:
+                e3 = attr.evolve(obj, **{f: d})
+            except Exception as ex:
+                bad.append("attr.evolve(obj, %s=dict(obj.%s)) raised %s" % (f, f, type(ex).__name__))
+                continue
+            before = render(e3)
+            if not (e3 == obj):
+                bad.append("attr.evolve(obj, %s=dict(obj.%s)) != obj" % (f, f))
+            d["c11_injected"] = 1
+            d.clear()
+            if render(e3) != before:
+                bad.append("mutating the dict given to attr.evolve(%s=...) changed the result" % f)
+            if hasattr(obj, "evolve"):          # the classes' own evolve()
+                d2 = dict(m.items())
+                try:
+                    e5 = obj.evolve(**{f: d2})
+                    before5 = render(e5)
+                    d2["c11_injected"] = 1
+                    d2.clear()
+                    if render(e5) != before5:
+                        bad.append("mutating the dict given to obj.evolve(%s=...) changed the result" % f)
+                    bad += immutability_facts(e5, "obj.evolve(%s=...)" % f)
+                except Exception as ex:
+                    bad.append("obj.evolve(%s=dict(obj.%s)) raised %s" % (f, f, type(ex).__name__))
+    if isinstance(getattr(obj, "extra_headers", None), tuple):
+        lst = [list(p) for p in obj.extra_headers]
+        try:
+            e4 = attr.evolve(obj, extra_headers=lst)
+            before = render(e4)
+            for p in lst:
+                p[0] = b"c11"
+            lst.append([b"k", b"v"])
+            if render(e4) != before:
+                bad.append("mutating the list given to attr.evolve(extra_headers=...) changed the result")
+        except Exception as ex:
+            bad.append("attr.evolve(obj, extra_headers=[...]) raised %s" % type(ex).__name__)
+    return {"bad": bad[:12]}
 
 
 def _accessor(o, name, kind):
@@ -1354,6 +1699,13 @@ def returned_container_probe(obj, twin, name, kind):
              "same_mutable_twice": bool(set(m1) & set(m2)),            # two successive calls share a mutable container
              "same_mutable_as_twin": bool(set(m1) & set(mt))}          # ... or share it with another (equal) object
     deep_mutate(r1)
+    # value objects / frozen mappings handed out (swhid(), anonymize(), evolve(), fields ...) are immutable too
+    handed = [x for _, x in _value_nodes(r1, name, []) if not isinstance(x, (tuple, frozenset))]
+    soft = []
+    for x in handed[:6]:
+        soft += immutability_facts(x, "what %s returned" % name)
+    if soft:
+        facts["returned_object_mutable"] = soft[:4]
     try:
         facts["fresh_call_differs"] = _render_ret(_accessor(obj, name, kind)) != before
         facts["second_result_differs"] = _render_ret(r2) != before
@@ -1379,10 +1731,22 @@ def impl_script(c):
         except Exception:
             res["plain_twin_builds"] = False
         return res
-    same = _make(c["cls"], c["route"], built)        # the SAME argument objects, a second time
+    oneshot = has_oneshot(c["args"])
+    # the SAME argument objects, a second time (not when an argument is a one-shot iterator: it is used up)
+    same = None if oneshot else _make(c["cls"], c["route"], built)
+    positional_eq = None
+    if not oneshot and c["route"] == "ctor" and built[0] == "kw":
+        try:
+            import attr
+            cls_ = type(obj)
+            if attr.has(cls_) and not any(a.kw_only for a in attr.fields(cls_)) and set(built[1]) == {a.name for a in attr.fields(cls_)}:
+                pos = cls_(*[built[1][a.name] for a in attr.fields(cls_)])
+                positional_eq = bool(pos == obj) and bool(obj == pos) and _hash_or_U(pos) == _hash_or_U(obj)
+        except Exception as e:
+            positional_eq = "raises " + type(e).__name__
     twin = _make(c["cls"], c["route"], _build_args(c["cls"], c["route"], c["args"], kept2, None, True))   # from equal PLAIN dicts
     snap0 = snapshot(obj, twin, same, frozen, copies)
-    res = {"snap0": snap0, "steps": [],
+    res = {"snap0": snap0, "steps": [], "positional_eq": positional_eq,
            "frozen_changed_by_construction": [i for i, (a, b) in enumerate(zip(frozen_before, snap0["frozen_args"])) if a != b]}
     snap = snap0
     prev = snap0
@@ -1436,6 +1800,10 @@ def impl_script(c):
                 raised = "unexpected " + type(e).__name__
         elif op == "ret":
             extra["ret"] = returned_container_probe(obj, twin, st[1], st[2])
+        elif op == "reach":
+            extra["reach"] = reach_probe(obj)
+        elif op == "evolve":
+            extra["evolve"] = evolve_probe(obj)
         elif op == "copy_pop":
             key = build(st[1], [])
             before = dict(obj.items())
@@ -1496,9 +1864,9 @@ def impl_twins(c):
             y = _make(c["cls"], "ctor", built)
         else:
             x = _construct(c["cls"], "ctor", c["args1"], [])
-            y = _construct(c["cls"], "ctor", c["args2"], [])
+            y = _construct(c.get("cls2", c["cls"]), "ctor", c["args2"], [])
     except Exception as e:
-        return {"error": "raises", "exc": core.exc_class(e)}
+        return {"error": "raises", "exc": core.exc_class(e), "msg": str(e)[:120]}
     res = {"eq12": bool(x == y), "eq21": bool(y == x), "ne12": bool(x != y)}
     for n, o in (("h1", x), ("h2", y)):
         try:
@@ -1853,8 +2221,9 @@ def enc_steps(c, enc):
             out.append("%s:%s" % (op, spec_atom_hex(st[1])))
         elif op == "copy_pop":
             out.append("copypop:%s" % spec_atom_hex(st[1]))
-        elif op == "ret":
-            out.append("read:-:todict")      # an accessor: a pure function of the content returning a fresh value
+        elif op in ("ret", "reach", "evolve"):
+            # an accessor / attempts that all raise / building other values: nothing that could write to the object
+            out.append("read:-:todict")
         elif op == "read":
             fld = "-" if st[1] is None else st[1].encode().hex()
             kind = "todict" if st[2] == "manifest" else st[2]      # the manifest is a function of the content
@@ -1890,6 +2259,8 @@ def requests(c):
         watch = "(" + ";".join(enc.frozen_vals) + ")"
         return ["run new %d %s %s %s %s %s %s" % (FUEL, "fromdict" if c["route"] == "fromdict" else "ctor",
                                                    c["cls"].encode().hex(), enc.store(), args, steps, watch)]
+    if c["kind"] == "twins" and c["variation"] in IMPL_ONLY_VARIATIONS:
+        return []       # the converters' spellings / two different classes: not expressible in the model's one-class twins
     if c["kind"] == "twins":
         enc = Enc()
         a1 = enc_args(c["args1"], enc)
@@ -1928,6 +2299,8 @@ def model(c, resp):
         content, todict, key, idok = split_top(obs0, ",")
         return {"content": content, "hashkey": key, "id_ok": idok == "1", "steps": steps,
                 "watch_changed": [a != b for a, b in zip(wb, wa)]}
+    if c["kind"] == "twins" and c["variation"] in IMPL_ONLY_VARIATIONS:
+        return {"impl_only": True}
     if c["kind"] == "twins":
         r = resp[0].split(" ")
         if r[0] != "ok":
@@ -1943,6 +2316,7 @@ def model(c, resp):
 
 # ------------------------------------------------------------------ property on the implementation
 CALLER_OPS = ("set", "del", "clear", "app", "idx", "pop")
+IMPL_ONLY_VARIATIONS = ("swhid-spelling", "cross-class")
 
 
 def oracle(c, ires, mres):
@@ -1964,6 +2338,9 @@ def oracle(c, ires, mres):
             return None           # construction refused: nothing was built
         if not ires["snap0"]["eq_twin"]:
             return "two %s objects built from the same arguments are not equal" % c["cls"]
+        if ires.get("positional_eq") is not None and ires["positional_eq"] is not True:
+            return ("%s built from the same arguments given positionally is not equal to / does not hash like the one built "
+                    "with keywords (%s)" % (c["cls"], ires["positional_eq"]))
         if not ires["snap0"].get("eq_same_args", True):
             return ("two %s objects built one after the other from the very same argument objects are not equal"
                     % c["cls"])
@@ -1980,11 +2357,26 @@ def oracle(c, ires, mres):
                 if chg:
                     return ("mutating a container passed to %s (%s) after construction changed the object's %s (step %r)"
                             % (c["cls"], c["route"], ",".join(chg), st))
+            elif st[0] == "reach":
+                f = r.get("reach", {})
+                if f.get("not_raising"):
+                    return ("%s: mutation attempt on a value reached through the object did not raise: %s"
+                            % (c["cls"], "; ".join(f["not_raising"][:3])))
+                if chg:
+                    return "mutation attempts on the values reached through a %s changed its %s" % (c["cls"], ",".join(chg))
+            elif st[0] == "evolve":
+                f = r.get("evolve", {})
+                if f.get("bad"):
+                    return "%s: %s" % (c["cls"], "; ".join(f["bad"][:3]))
+                if chg:
+                    return "evolving a %s (and mutating what the copies hand out / were given) changed its %s" % (c["cls"], ",".join(chg))
             elif st[0] == "ret":
                 f = r.get("ret", {})
                 what = "%s.%s%s" % (c["cls"], st[1], "()" if st[2] == "call" else "")
                 if f.get("fresh_call_raises"):
                     return "after mutating what %s returned, calling it again raises %s" % (what, f["fresh_call_raises"])
+                if f.get("returned_object_mutable"):
+                    return "%s hands out a value object that can be mutated: %s" % (what, "; ".join(f["returned_object_mutable"][:2]))
                 if f.get("same_mutable_twice"):
                     return "two successive calls of %s hand out the same mutable container" % what
                 if f.get("same_mutable_as_twin"):
@@ -2023,14 +2415,15 @@ def oracle(c, ires, mres):
         if ires["eq12"] != ires["eq21"] or ires["eq12"] == ires["ne12"]:
             return "== is not symmetric / != is not its negation"
         if c["variation"] in ("same", "same-objects", "noneq-fields", "nested-noneq", "permuted", "dict-vs-idict",
-                              "equal-but-differently-spelled") and not ires["eq12"]:
+                              "equal-but-differently-spelled", "swhid-spelling") and not ires["eq12"]:
             return "objects built from equal arguments (%s) are not equal" % c["variation"]
         if ires["eq12"] and ires["h1"] != "U" and ires["h2"] != "U":
             if ires["h1"] != ires["h2"]:
                 return "equal objects have different hashes"
             if not ires.get("dict_key") or not ires.get("set_member") or ires.get("set_size") != 1:
                 return "equal objects do not act as the same dict key / set member"
-        if ires["eq12"] and c["variation"] in ("same", "same-objects", "equal-but-differently-spelled") \
+        if ires["eq12"] and c["variation"] in ("same", "same-objects", "equal-but-differently-spelled", "swhid-spelling",
+                                               "cross-class") \
                 and (ires["h1"] == "U") != (ires["h2"] == "U"):
             return "objects built from the same arguments: one hashable, one not"
         return None
@@ -2092,6 +2485,11 @@ def compare(c, ires, mres):
             r_changed = [k for k in r["changed"] if k != "frozen_args"]
             if m["changed"] != bool(r_changed):
                 return "step %r: model changed=%s implementation changed=%s" % (st, m["changed"], r_changed)
+        return None
+    if c["kind"] == "twins" and mres.get("impl_only"):
+        if "error" in ires:
+            return "HARNESS ERROR, not a property violation: generated %s arguments do not build: %s %s" % (
+                c["variation"], ires.get("exc"), ires.get("msg", ""))
         return None
     if c["kind"] == "twins":
         if ("error" in ires) != ("error" in mres):
